@@ -40,6 +40,11 @@ structure KState where
   byName : List Param       -- `pokargs_by_name`
   deriving Repr
 
+/-- `varargs and varargs.name == name or varkwargs.name == name` -/
+def starNamed (va vk : Option Param) (name : Nat) : Bool :=
+  (match va with | some a => a.name == name | none => false) ||
+  (match vk with | some k => k.name == name | none => false)
+
 /-- one iteration of `for kwarg_name in named_args`.  `pv` is `some (value, partial_obj)`
     in partial mode. -/
 def maskName (vk : Option Param) (st : KState) (name : Nat) (pv : Option (Nat × Nat)) :
@@ -76,6 +81,8 @@ def maskName (vk : Option Param) (st : KState) (name : Nat) (pv : Option (Nat ×
       if vk.isNone then .error .valueError else
       match pv with
       | some (v, pobj) =>
+        -- a keyword named like a remaining star parameter is absorbed silently (as after `fix:` D51)
+        if starNamed st.va vk name then .ok { st with consumed := st.consumed ++ [name] } else
         .ok { st with kwo := pset st.kwo { name := name, kind := .ko, dflt := some v },
                       src := dset st.src name [pobj],
                       consumed := st.consumed ++ [name] }
